@@ -16,26 +16,33 @@ RULE = ('random 1-3-D sources (axis lengths 0-12) labelled injectively in C orde
         'and None), boolean mask (incl. all-False / all-True), strictly increasing list chosen dense or sparse w.r.t. '
         'the 20% rule, and a malformed stream (unsorted / repeated / negative / out-of-range lists); source dtypes '
         'bool, int64, float32/64, complex64/128 and byte strings |S1..|S6 with elements that make every narrowing '
-        'cast visible (full-width strings, non-zero imaginary parts, values other than 0/1); 0-3 transforms '
-        '(elementwise a*x+b cast to any numeric dtype incl. bool, end-axis drop/add); LazyIndexer over numpy arrays '
-        'and h5py datasets, ConcatenatedLazyIndexer over 1-4 parts (some empty, parts with their own first stage and '
-        'their own dtype: one common dtype, byte strings of different widths in any order, or kinds that katdal '
-        'rejects) plus a fixed sweep of (part dtypes x head kind x dtype-changing transform); a case is one '
-        '(source kind, shape(s), dtype(s), stage 1, transforms, stage 2); values, shape AND dtype of every answer are '
-        'compared; non-trivial when the implementation returns at least one element through a non-full selection or '
-        'exercises the rejection clause; distinct by canonical case')
+        'cast visible; chains of 0-6 transforms: elementwise a*x+b cast to any numeric dtype incl. bool (up to 3 '
+        'dtype-declaring ones), end-axis drop/add, and transforms that USE their keep argument (keepdims as in '
+        'h5datav2/v3, an auxiliary array of the first-stage shape indexed with the same keep as in extract_weights); '
+        'LazyIndexer over numpy arrays and h5py datasets, ConcatenatedLazyIndexer over 1-4 parts (LazyIndexers or raw '
+        'arrays, some empty, parts with their own first stage and their own dtype: one common dtype, byte strings of '
+        'different widths in any order, or kinds that katdal rejects; 12% of the common-dtype cases give the parts '
+        'their own elementwise dtype-changing chain) plus a fixed sweep of (part dtypes x head kind x dtype-changing '
+        'transform); API forms: index / first stage as a tuple or bare, Python or numpy integers, lists or arrays; '
+        'every indexer is asked three times (request, self[:], the request again) and its shape / dtype / len() are '
+        'read before and after; a case is one (source kind, shape(s), dtype(s), stage 1, transforms, stage 2, API form); '
+        'values, shape AND dtype of every answer are compared; non-trivial when the implementation returns at least '
+        'one element through a non-full selection or exercises the rejection clause; distinct by canonical case')
 ASSUMPTIONS = [
     'boolean masks have the length of their axis (other lengths are outside the model)',
     'first-stage integer keeps its axis with length 1 (LazyIndexer convention self[:].shape); the spec uses the same convention',
     'index tuples are padded / truncated to the number of axes (documented LazyIndexer behaviour) in model and spec',
-    'transforms ignore the `keep` argument; concatenated parts carry no transforms of their own',
-    'N-d assembly (np.mgrid loop over segment products, numpy block assignment) is modelled as the outer product of '
-    'per-axis gathers: tied only by this correspondence',
+    'transforms receive the second-stage index as the user wrote it (LazyTransform documentation); the keep-aware '
+    'transforms of the harness are replicas of katdal\'s h5datav2/v3 closures (which cannot be imported on their own)',
+    'concatenated parts with transform chains of their own are not in the model: judged against numpy only (no tie)',
+    'np.empty is modelled as a buffer of arbitrary content (theorems quantify over it; the wire fills it with a sentinel)',
     'h5py datasets reject negative slice steps: such cases are compared against the spec only (no tie)',
     'float evaluation of 0.2 * dim_len is modelled exactly as dim_len / 5',
     'parts without rows are dropped by the indexer at construction: the spec ignores their tail shape and dtype too',
     'parts whose dtypes are neither all equal nor all byte strings are rejected at construction '
     '(ConcatenationError, documented): correct rejection; only the tie (model rejects as well) is checked there',
+    'InvalidTransform at construction is a correct rejection only for a chain that changes a preserved dimension or '
+    'drops every dimension (documented restriction); on a valid chain it is reported as init_raises',
     'a 0-d byte-string answer is a numpy scalar whose dtype is the width of its value: width not compared for 0-d',
     'elements are integral / have integral real and imaginary parts, so every numeric cast is exact in the model',
 ]
